@@ -62,7 +62,7 @@ func checkC11(c *Ctx) {
 	isFld := func(d, f string) bool {
 		return strings.HasPrefix(d, recvN+".") && strings.HasSuffix(d, "."+f) && !strings.ContainsAny(d, "()[")
 	}
-	entN := entP.Name()
+	entN := PN(entP)
 	traces := func(st *ConcState, v ssa.Value, pred func(ssa.Value) bool) bool {
 		v = Strip(v)
 		for k := 0; k < 12; k++ {
@@ -606,9 +606,9 @@ func c11Window(c *Ctx) {
 	}
 	name := fn.String()
 	t := fn.Params[1]
-	tn := "UnixNano(" + t.Name() + ")"
+	tn := "UnixNano(" + PN(t) + ")"
 	if TypeName(t.Type()) == "int64" {
-		tn = t.Name() // the caller hands over the timestamp in nanoseconds
+		tn = PN(t) // the caller hands over the timestamp in nanoseconds
 	}
 	traces := func(st *ConcState, v ssa.Value, full string) bool {
 		v = Strip(v)
@@ -760,7 +760,7 @@ func containsS(l []string, s string) bool {
 func c11Config(c *Ctx) {
 	c.Rule("R11.9", "Config.Sampling is wired to the sampler: installed iff present, Initial→first, Thereafter→thereafter, tick = 1s; NewSampler passes its arguments on in order", 2)
 	if g, pos, ok := ConfigOptionGuards(c, "WrapCore"); ok {
-		rn := c.Method(ZapPath, "Config", "buildOptions").Params[0].Name()
+		rn := PN(c.Method(ZapPath, "Config", "buildOptions").Params[0])
 		c.Check(len(g) == 1 && g[0] == rn+".Sampling != nil", "R11.9", "(go.uber.org/zap.Config).buildOptions", "sampler-installed-iff-configured", pos, "the sampling core is installed under exactly {%s.Sampling != nil} (found {%s})", rn, strings.Join(g, ", "))
 	} else {
 		c.Bad("R11.9", "(go.uber.org/zap.Config).buildOptions", "sampler-installed-iff-configured", pos, "Config.buildOptions never wraps the core in a sampler")
@@ -911,7 +911,7 @@ func samplerCoreField(c *Ctx) string {
 		if st, ok := n.Underlying().(*types.Struct); ok {
 			for i := 0; i < st.NumFields(); i++ {
 				if TypeName(st.Field(i).Type()) == "zapcore.Core" {
-					return st.Field(i).Name()
+					return FN(st.Field(i))
 				}
 			}
 		}
